@@ -61,6 +61,11 @@ class ExtractSub(ExtractMe):
     pass
 
 
+class CollideErr(Exception):
+    """Raised by `raise` ops only; its extractor returns keys that collide with the fields eliot
+    itself puts on a failed end message (exception, reason, action_status)."""
+
+
 class StrRaises(Exception):
     def __str__(self):
         raise RuntimeError("str() raises")
@@ -90,6 +95,7 @@ EXC_CLASSES = {
     "ExtractSub": ExtractSub,
     "StrRaises": StrRaises,
     "ZeroDivisionError": ZeroDivisionError,
+    "CollideErr": CollideErr,
 }
 
 
@@ -135,6 +141,7 @@ class MAction(object):
         self.ser_succ = None
         self.finished_inside = False
         self.late_gates = []
+        self.reason = None
 
     def __repr__(self):
         return "<MAction nid=%s %s %s n=%d>" % (self.nid, self.atype, self.outcome, len(self.children))
@@ -324,15 +331,23 @@ class Interp(object):
             raise Unwind()
 
     # ----------------------------------------------------------------- body
-    def x_body(self, ops, env):
-        pending = []
+    def x_body(self, ops, env, later=None):
+        """Run ops.  What this body spawns is joined at its end -- or, when the caller passes a list as
+        ``later``, handed to the caller to join (scope left first, action finished after the join)."""
+        pending = [] if later is None else later
+        orphans = []
         try:
             for op in ops:
+                if op["op"] == "orphan_create":
+                    self.x_orphan_create(op, env, orphans)
+                    continue
                 yield from self.x_op(op, env, pending)
         finally:
-            if pending:
+            if pending and later is None:
                 # structured concurrency: join what this body spawned
                 yield ("join", pending)
+            for nid in orphans:
+                self.x_orphan_abandon(nid)
 
     def x_op(self, op, env, pending):
         k = op["op"]
@@ -356,6 +371,8 @@ class Interp(object):
             yield from self.x_reenter(op, env)
         elif k == "plain_gen":
             self.x_plain_gen(op, env)
+        elif k == "orphan_enter":
+            yield from self.x_orphan_enter(op, env)
         elif k == "xreg":
             # an exception extractor registered in the middle of the run
             self.rc.setup_extractors([[op["cls"], op["mode"]]])
@@ -569,6 +586,56 @@ class Interp(object):
                     rc.fail("exception_replaced", "generator throw: %r came back instead" % (got,))
                     raise Unwind()
 
+    # -------------------------- actions created in one place and entered in another
+    def x_orphan_create(self, op, env, orphans):
+        """start_action() here; some other task (or a later op) will enter it with `with action:`."""
+        rc = self.rc
+        nid = op["nid"]
+        node = MAction(nid, op["atype"], {"nid": nid}, rc.actor_name())
+        self.model.attach(node, env.top())
+        a = self.api(("start", nid), self.eliot.start_action, action_type=op["atype"], nid=nid)
+        node.obj = a
+        rc.orphans[nid] = [node, a, False]
+        orphans.append(nid)
+        rc.probe("action_created_for_another_task")
+
+    def x_orphan_abandon(self, nid):
+        ent = self.rc.orphans.get(nid)
+        if ent is not None and not ent[2]:
+            ent[2] = True
+            ent[0].outcome = "succeeded"
+            self.api(("end", nid), ent[1].finish)
+
+    def x_orphan_enter(self, op, env):
+        rc = self.rc
+        ent = rc.orphans.get(op["nid"])
+        if ent is None or ent[2]:
+            return
+        ent[2] = True
+        node, a = ent[0], ent[1]
+        nid = op["nid"]
+        rc.probe("action_entered_in_another_task")
+        self.api(("enter", nid), a.__enter__)
+        env.stack.append((node, a))
+        try:
+            self.check_current(env, "enter:foreign")
+            yield from self.x_body(op["body"], env)
+        except (SimAbort, Unwind, Violation):
+            raise
+        except BaseException as ex:  # noqa
+            env.stack.pop()
+            self._model_fail(node, ex, env)
+            r = self.api(("end", nid), a.__exit__, type(ex), ex, ex.__traceback__)
+            if r:
+                rc.fail("swallowed", "__exit__ swallowed")
+                raise Unwind()
+            self.check_current(env, "exit:foreign")
+        else:
+            env.stack.pop()
+            node.outcome = "succeeded"
+            self.api(("end", nid), a.__exit__, None, None, None)
+            self.check_current(env, "exit:foreign")
+
     # -------------------------------------------------------------- actions
     def x_act(self, op, env):
         e = self.eliot
@@ -642,6 +709,7 @@ class Interp(object):
                 self.api(("end", nid), a.__exit__, None, None, None)
         elif style in ("context", "run"):
             # a.context() / a.run(f): scope only; finish explicitly afterwards
+            later = [] if (op.get("join_after_scope") and style == "context") else None
             try:
                 if style == "context":
                     cm = self.api(("ctx", nid), a.context)
@@ -652,13 +720,18 @@ class Interp(object):
                     env.stack.append((node, a))
                     try:
                         self.check_current(env, "enter:context")
-                        yield from self.x_body(op["body"], env)
+                        yield from self.x_body(op["body"], env, later)
                         if typed_succ:
                             self._typed_succ(node, a, typed_succ)
                     except (SimAbort, Unwind, Violation):
                         raise
                     except BaseException as ex:  # noqa
                         holder.inner = ex
+                        if op.get("finish_inside") and not later:
+                            # the handler finishes the action while still inside its context()
+                            self._model_fail(node, ex, env)
+                            node.finished_inside = True
+                            self.api(("end", nid), a.finish, ex)
                         env.stack.pop()
                         try:
                             r = self.api_thru(("exit", nid), holder, cm.__exit__, type(ex), ex, ex.__traceback__)
@@ -708,10 +781,17 @@ class Interp(object):
                 if ex is not holder.inner:
                     rc.fail("exception_replaced", "scope exit raised %r instead of %r" % (ex, holder.inner))
                     raise Unwind()
-                self._model_fail(node, ex, env)
-                self.api(("end", nid), a.finish, ex)
+                if later:
+                    yield ("join", later)
+                if node.outcome is None:
+                    self._model_fail(node, ex, env)
+                    self.api(("end", nid), a.finish, ex)
                 escaped = ex
             else:
+                if later:
+                    # the scope was left first; what it spawned is joined before the action is finished
+                    rc.probe("scope_left_before_children_joined")
+                    yield ("join", later)
                 if node.outcome is None:
                     node.outcome = "succeeded"
                     self.api(("end", nid), a.finish)
@@ -724,6 +804,11 @@ class Interp(object):
             self.api(("refinish", nid), a.finish)
         self.check_current(env, "exit:%s" % style)
         if escaped is not None and not catch:
+            if op.get("mutate_on_pass") and type(escaped) in (Exception, ValueError, AppError, AppSubError,
+                                                              ZeroDivisionError, ExtractMe, ExtractSub):
+                # a handler between two nested actions edits the exception and lets it go on
+                escaped.args = ("changed while passing nid=%d" % nid,)
+                rc.probe("exception_mutated_between_actions")
             raise escaped
 
     def _typed_succ(self, node, a, typed_succ):
@@ -735,6 +820,8 @@ class Interp(object):
     def _model_fail(self, node, ex, env=None):
         node.outcome = "failed"
         node.exc = ex
+        # snapshot now: the same exception object may be changed before it fails the next action
+        node.reason = exc_text(ex)
         node.exc_fields = self.rc.expected_extractor_fields(ex)
         if env is not None:
             self._extractor_failure(ex, env)
@@ -893,7 +980,38 @@ class Interp(object):
                     raise Unwind()
 
             how = op.get("how", "thread")
-            if how == "inline":
+            if op.get("double") and parent is not None and how == "thread":
+                # a dispatcher wraps the already preserved callable once more, inside another action B:
+                # B gets its own remote child (which calls the first wrapper, which continues in `parent`)
+                rc.probe("preserve_wrapped_twice")
+                bnid = op["bnid"]
+                bnode = MAction(bnid, "app:dispatch", {"nid": bnid}, rc.actor_name())
+                self.model.attach(bnode, parent)
+                b = self.api(("start", bnid), e.start_action, action_type="app:dispatch", nid=bnid)
+                bnode.obj = b
+                self.api(("enter", bnid), b.__enter__)
+                env.stack.append((bnode, b))
+                outer = MAction(None, "eliot:remote_task", {}, name, remote=True)
+                self.model.attach(outer, bnode)
+                inner_wrapped = wrapped
+                wrapped2 = self.api(("preserve", op["sid"]), e.preserve_context, inner_wrapped)
+                if wrapped2 is inner_wrapped:
+                    rc.fail("preserve_identity", "preserve_context(g) returned g although there is a current action")
+                    raise Unwind()
+                wrapped = wrapped2
+                outer.outcome = "succeeded"
+                act = s.spawn(name, lambda: self.actor_wrap(thread_fn, name))
+                s.yield_point("join")
+                s.join(act)
+                if rnode.outcome == "failed":
+                    outer.outcome = "failed"
+                    outer.exc = rnode.exc
+                    outer.reason = rnode.reason
+                    outer.exc_fields = rnode.exc_fields
+                env.stack.pop()
+                bnode.outcome = "succeeded"
+                self.api(("end", bnid), b.__exit__, None, None, None)
+            elif how == "inline":
                 rc.probe("preserve_inline")
                 thread_fn()
             elif how == "copyctx":
